@@ -406,7 +406,7 @@ def t_process_batch(E, cancellable=False):
         names = [e[0] for e in E.effects]
         E.oblige(tagq + '/ensures.semaphore_released_exactly_as_often_as_acquired',
                  z3.BoolVal(names.count('sem.acquire') == names.count('sem.release') and
-                            names.count('sem.acquire') <= 1), props={'C10', 'C04'})
+                            names.count('sem.acquire') <= 1), props={'C10', 'C04', 'C15'})
     E.run_paths(body)
 
 
@@ -415,7 +415,7 @@ def t_process_batch_c09(E):
 
 
 TASKS = {
-    'batcher._process_batch': (t_process_batch, {'C04', 'C10'}),
+    'batcher._process_batch': (t_process_batch, {'C04', 'C10', 'C15'}),
     'batcher._process_batch[cancel]': (t_process_batch_c09, {'C09'}),
 }
 
@@ -698,7 +698,7 @@ def t_get_next_batch(E):
         n = z3.Length(seq)
         T = o.fields['batch_timeout'].t
         E.oblige(Qn + '/ensures.batch_is_never_empty', n >= 1)
-        E.oblige(Qn + '/ensures.at_most_max_batch_size_items', n <= st['M_hi'],
+        E.oblige(Qn + '/ensures.at_most_max_batch_size_items', n <= st['M_hi'], props={'C10', 'C15'},
                  detail='judged against the largest limit in force while items were added')
         E.oblige(Qn + '/ensures.items_are_the_next_contiguous_block_in_arrival_order',
                  z3.And(seq == z3.Extract(arrivals, d0, n), d == d0 + n))
@@ -712,7 +712,7 @@ def t_get_next_batch(E):
             E.oblige(Qn + '/ensures.timer_started_when_the_last_member_joined',
                      z3.And(st['wait_start'] >= arr_time(d - 1), st['wait_start'] >= st['t_entry']),
                      detail='dispatch = max(arrival of last member, assembly start) + batch_timeout')
-            E.oblige(Qn + '/ensures.waits_exactly_this_objects_batch_timeout', st['last_T'] == T)
+            E.oblige(Qn + '/ensures.waits_exactly_this_objects_batch_timeout', st['last_T'] == T, props={'C10', 'C15'})
     E.run_paths(body)
 
 
@@ -787,7 +787,7 @@ def t_processing_loop(E):
 
 
 TASKS.update({
-    'batcher._get_next_batch': (t_get_next_batch, {'C10'}),
+    'batcher._get_next_batch': (t_get_next_batch, {'C10', 'C15'}),
     'batcher._processing_loop': (t_processing_loop, {'C10'}),
 })
 
@@ -936,7 +936,7 @@ def t_call(E):
                                  z3.And(z3.BoolVal(ok), a[2].t == st['k'] if ok else z3.BoolVal(False)),
                                  props={'C11', 'C09'})
                         E.oblige(Qn + '/forget.timer_delay_is_retention_timeout', _real(d) == st['retention'],
-                                 props={'C11'})
+                                 props={'C11', 'C15'})
                         E.w['tmr'] = E.w['tmr'] + 1
                         st['timers'] = st.get('timers', 0) + 1
                         return NONE
@@ -957,6 +957,12 @@ def t_call(E):
                     return VStub('Future.done', lambda E_, a, k: VBool(z3.Select(fut_world(E)[0], fu) != PENDING))
                 if name == 'add_done_callback':
                     def adc(E_, a, k):
+                        okc = isinstance(a[0], (VFunc, VBound, VPartial, VStub))
+                        E.oblige(Qn + '/exit.done_callback_is_a_callable', z3.BoolVal(okc), props={'C09', 'C11', 'C04'},
+                                 detail='add_done_callback(%r): what is registered must be CALLED later, with the '
+                                        'future; calling the clean-up right here evicts an unanswered request' % (a[0],))
+                        if not okc:
+                            raise PathEnd()
                         st.setdefault('callbacks', []).append((fu, a[0]))
                         return NONE
                     return VStub('Future.add_done_callback', adc)
@@ -991,7 +997,7 @@ def t_call(E):
             if isinstance(v, Obj) and v.cls == 'AFuture':
                 # awaiting the shared future directly: cancelling this caller cancels the future (C09)
                 st.setdefault('awaits', []).append(('bare', v.fields['fut']))
-                E.oblige(Qn + '/await.shared_future_is_awaited_through_shield', z3.BoolVal(False), props={'C09', 'C04'},
+                E.oblige(Qn + '/await.shared_future_is_awaited_through_shield', z3.BoolVal(False), props={'C09', 'C04', 'C11'},
                          detail='a bare await lets a cancelled caller cancel the future shared with other callers')
                 raise PathEnd()
             return None
@@ -1008,7 +1014,13 @@ def t_call(E):
             E.w['fut_state'] = nfs
             E.w['pend'] = z3.BoolVal(False)
             check_inv('before done-callback')
-            E.call(cb, [fut_obj(fu)], {})
+            try:
+                E.call(cb, [fut_obj(fu)], {})
+            except PyExc as pe:
+                from pyvc.engine import _known_cls
+                E.oblige(Qn + '/callback.runs_without_raising', z3.BoolVal(False), props={'C09', 'C11', 'C04'},
+                         detail='the done-callback, called with the future as its only argument, raised %s: the loop '
+                                'logs and drops it, the entry is never forgotten' % (_known_cls(pe.exc.cls) or pe.exc.cls))
             E.w['owed'] = E.w['owed'] - 1 if False else E.w['owed']
 
     def body():
@@ -1094,7 +1106,7 @@ def t_call(E):
                      detail='a sharer that evicts can remove a newer pending entry: its request is then enqueued twice and a caller is never answered')
         aw = st.get('awaits', [])
         E.oblige(Qn + '/await.exactly_one_shielded_await_of_the_keys_future',
-                 z3.BoolVal(len(aw) == 1 and aw[0][0] == 'shield'), props={'C09', 'C04'})
+                 z3.BoolVal(len(aw) == 1 and aw[0][0] == 'shield'), props={'C09', 'C04', 'C11'})
         if len(aw) == 1:
             exp = st['my_fut'] if owner else st.get('looked_up')
             E.oblige(Qn + '/await.awaits_the_future_registered_under_its_key',
@@ -1118,7 +1130,7 @@ def t_call(E):
 
 
 TASKS.update({
-    'batcher.__call__': (t_call, {'C11', 'C04', 'C09'}),
+    'batcher.__call__': (t_call, {'C11', 'C04', 'C09', 'C15'}),
 })
 
 
